@@ -115,6 +115,10 @@ class StmtMixin:
             if isinstance(base, VObj):
                 # mutation of an opaque object: an effect
                 self.path.trace.append(('setattr', base, t.attr, v))
+                # ... and the code reads the new value back afterwards (contract text keeps speaking of the entry state)
+                if not hasattr(self.path, 'obj_writes'):
+                    self.path.obj_writes = []
+                self.path.obj_writes.append((base.term, t.attr, v))
                 return
             if not isinstance(base, VStruct):
                 raise Unsupported(f'attribute store on {type(base).__name__}')
